@@ -130,6 +130,7 @@ func r01_1(c *Ctx, rule string) {
 		}
 		c.ObUnreachable(rule, "fsutil.mkstat/size-not-for-dirs", mk, as, func(in ssa.Instruction) bool { return in == ssa.Instruction(s) }, "recording a size", "the entry is a directory")
 	}
+	statSizeAlways(c, rule)
 	// Readlink on the on-disk path, under the symlink test
 	for _, call := range c.P.CallsTo(mk, "os.Readlink") {
 		_, isParam := eng.Strip(call.Common().Args[0]).(*ssa.Parameter)
@@ -593,12 +594,7 @@ func r01_7(c *Ctx, rule string) {
 		aCell, _ := walkerCells(c, loop)
 		for _, call := range c.P.CallsTo(loop, "fsutil.pathChange") {
 			a0 := call.Common().Args[0]
-			ok := false
-			if u, isU := a0.(*ssa.UnOp); isU && u.Op == token.MUL {
-				if fv, isFV := u.X.(*ssa.FreeVar); isFV && fv.Name() == aCell && aCell != "" {
-					ok = true
-				}
-			}
+			ok := aCell != "" && loadLoc(eng.Canon(a0)) == aCell
 			c.R.Check(ok, rule, c.siteName(call)+"/lower-is-a", c.pos(call), "pathChange's first operand is walker a's entry", "pathChange's first operand is not the entry of walker a (destination)")
 		}
 	}
@@ -607,13 +603,73 @@ func r01_7(c *Ctx, rule string) {
 // r018Exceptions: write errors that are deliberately not fatal.
 var r018Exceptions = map[string]string{
 	"fsutil.rewriteMetadata/github.com/containerd/continuity/sysx.LSetxattr": "xattrs are applied best effort by design (unprivileged receivers, unsupported filesystems)",
-	"fsutil.(*DiskWriter).HandleChange/os.Lstat":                            "ENOENT means the entry does not exist yet (create instead of replace); every other error is returned (R03.7 checks the decision is Lstat-based)",
-	"fsutil.renameFile/os.Lstat":                                            "windows: ENOENT means there is nothing to replace; every other error is returned",
-	"fsutil.(*DiskWriter).HandleChange/os.Mkdir":                            "EEXIST from a concurrent creator retries the whole change; every other error is returned",
-	"fsutil.(*lazyFileWriter).Write/os.OpenFile#1":                          "a permission error is retried after chmod; the final error is returned",
-	"fsutil.(*lazyFileWriter).Write/os.Stat":                                "part of the permission retry: on failure the original open error is returned",
-	"fsutil.(*lazyFileWriter).Write/os.Chmod":                               "part of the permission retry: on failure the original open error is returned",
-	"fsutil.(*receiver).run/os.Remove":                                      "removing a pre-existing listing file is best effort; the following OpenFile is checked",
+	"fsutil.(*DiskWriter).HandleChange/os.Lstat":                             "ENOENT means the entry does not exist yet (create instead of replace); every other error is returned (R03.7 checks the decision is Lstat-based)",
+	"fsutil.renameFile/os.Lstat":                                             "windows: ENOENT means there is nothing to replace; every other error is returned",
+	"fsutil.(*DiskWriter).HandleChange/os.Mkdir":                             "EEXIST from a concurrent creator retries the whole change; every other error is returned",
+	"fsutil.(*lazyFileWriter).Write/os.OpenFile#1":                           "a permission error is retried after chmod; the final error is returned",
+	"fsutil.(*lazyFileWriter).Write/os.Stat":                                 "part of the permission retry: on failure the original open error is returned",
+	"fsutil.(*lazyFileWriter).Write/os.Chmod":                                "part of the permission retry: on failure the original open error is returned",
+	"fsutil.(*receiver).run/os.Remove":                                       "removing a pre-existing listing file is best effort; the following OpenFile is checked",
+}
+
+// statSizeAlways: for a non-directory no success return of mkstat is
+// reachable without the store Stat.Size = fi.Size() (whatever the inode
+// bookkeeping decided: a hard-link member that a link reset later promotes to
+// a file, and the tar writer, rely on it).
+func statSizeAlways(c *Ctx, rule string) {
+	mk := c.P.Fn("fsutil.mkstat")
+	if mk == nil {
+		c.R.Missing(rule, "func fsutil.mkstat")
+		return
+	}
+	x := c.explorer(mk)
+	as := map[string]bool{}
+	for _, call := range c.P.CallsTo(mk, "(io/fs.FileInfo).IsDir") {
+		if cl, ok := call.(*ssa.Call); ok {
+			as[x.KeyAtEntry(cl)] = false
+		}
+	}
+	isSizeStore := func(in ssa.Instruction) bool {
+		s, ok := in.(*ssa.Store)
+		if !ok {
+			return false
+		}
+		fa, ok := s.Addr.(*ssa.FieldAddr)
+		if !ok || eng.FieldOwnerName(fa.X.Type(), fa.Field) != "types.Stat.Size" {
+			return false
+		}
+		return c.DerivesFrom(s.Val, func(v ssa.Value) bool { return c.isCallValueTo(v, "(io/fs.FileInfo).Size") }, 4)
+	}
+	// the store must come after the inode bookkeeping, which zeroes the size of link members
+	hit, und := c.SuccessAvoiding(mk, nil, as, nil, isSizeStore)
+	switch {
+	case und:
+		c.R.Undecided(rule, "fsutil.mkstat/size-for-every-non-dir", c.P.Pos(mk.Pos()), "state limit")
+	case hit != nil:
+		c.R.Fail(rule, "fsutil.mkstat/size-for-every-non-dir", c.pos(hit.Instr), "mkstat can succeed for a non-directory without recording fi.Size(): the entry is reported (and archived) with size 0; path "+eng.BlockTrace(mk, hit.Trace))
+	default:
+		c.R.OK(rule, "fsutil.mkstat/size-for-every-non-dir", c.P.Pos(mk.Pos()), "every non-directory gets Size = fi.Size()")
+	}
+	for _, call := range c.P.CallsTo(mk, "fsutil.setUnixOpt") {
+		call := call
+		ok, hit2, und2 := c.Precedes(mk, call, as, isSizeStore, func(in ssa.Instruction) bool { return isReturn(in) && mkSuccess(in) })
+		c.R.Check(ok && !und2, rule, "fsutil.mkstat/size-after-inode-bookkeeping", c.pos(call), "the size is recorded after setUnixOpt (which zeroes it for link members)", "the size recorded for a non-directory can be overwritten by the inode bookkeeping"+func() string {
+			if hit2 != nil {
+				return " (path " + eng.BlockTrace(mk, hit2.Trace) + ")"
+			}
+			return ""
+		}())
+	}
+}
+
+// mkSuccess: a return of mkstat whose error result is the nil constant.
+func mkSuccess(in ssa.Instruction) bool {
+	r, ok := in.(*ssa.Return)
+	if !ok || len(r.Results) == 0 {
+		return false
+	}
+	k, isC := r.Results[len(r.Results)-1].(*ssa.Const)
+	return isC && k.IsNil()
 }
 
 // R01.8 no survived write error.
